@@ -7,7 +7,8 @@
 (***************************************************************************)
 EXTENDS Integers, Sequences, FiniteSets, TLC, Json, IOUtils, SequencesExt
 
-Recs   == ndJsonDeserialize(IOEnv.JUDGE_IN)
+\* one file per chunk (JUDGE_IN_<c>.ndjson): every TLC worker deserialises only the histories it judges
+RecsOf(c) == ndJsonDeserialize(IOEnv.JUDGE_IN \o "_" \o ToString(c) \o ".ndjson")
 CHUNKS == atoi(IOEnv.JUDGE_CHUNKS)
 OUTDIR == IOEnv.JUDGE_OUT
 
@@ -58,8 +59,9 @@ JudgeRec(rec) ==
   IF rec.hang THEN <<Mis(rec.h, Len(rec.h.ops), "hang", 0, "terminates", "no result within the deadline"),
                      [kind |-> "stat", id |-> rec.h.id, steps |-> 0, nontrivial |-> 0]>>
   ELSE Steps(rec, 1, <<{}, {}, {}>>, 0)
-RECURSIVE JudgeChunk(_)
-JudgeChunk(n) == IF n > Len(Recs) THEN <<>> ELSE JudgeRec(Recs[n]) \o JudgeChunk(n + CHUNKS)
+RECURSIVE JudgeSeq(_, _)
+JudgeSeq(recs, n) == IF n > Len(recs) THEN <<>> ELSE JudgeRec(recs[n]) \o JudgeSeq(recs, n + 1)
+JudgeChunk(c) == JudgeSeq(RecsOf(c), 1)
 
 VARIABLES chunk, done
 Init == chunk \in 1..CHUNKS /\ done = FALSE
